@@ -961,6 +961,10 @@ def run(env, res):
     from props import c08eval
     vhandle = c08eval.start(env)
     vhist = {}
+    if os.environ.get('C08_PARTS') == 'V':          # development: the evaluator part alone
+        c08eval.finish(vhandle, env, res, vhist)
+        res.extra['histogram'] = dict(evaluator=vhist)
+        return res
 
     # ---- S + E + Q in the worker pool
     targets, nfuncs = sweep_targets()
